@@ -383,7 +383,9 @@ def shrink(fam, case, differs, budget=400, extra_cands=None):
     best = case
     evals = 0
     progress = True
-    while progress and evals < budget:
+    t0 = time.time()
+    # a candidate of a very long case costs what the case costs: fewer of them per round, two minutes in all
+    while progress and evals < budget and time.time() - t0 < 120:
         progress = False
         toks = best.split(" ")
         cands = []
@@ -401,7 +403,7 @@ def shrink(fam, case, differs, budget=400, extra_cands=None):
                     cands.append(" ".join(toks[:i] + [t[:j] + t[j + 1:]] + toks[i + 1:]))
         if extra_cands:
             cands = list(extra_cands(best)) + cands
-        cands = [c for c in dict.fromkeys(cands) if c != best][:200]
+        cands = [c for c in dict.fromkeys(cands) if c != best][:200 if len(best) < 20000 else 16]
         if not cands:
             break
         im = eval_impl(fam, cands)
